@@ -14,6 +14,9 @@ structure Spec where
   lockOf : Nat → Nat          -- the lock that protects a slot (readMu for the read slot, writeFrameMu for the write slot)
   readSlot : Nat
   writeSlot : Nat
+  /-- `done true` nodes of calls that take no caller context (Close, CloseNow): they arm only internal
+  5 s contexts, and the connection is closed when they return. -/
+  exempt : List Node
 
 structure Ann where
   may : List (List Nat)
@@ -37,7 +40,7 @@ def checkNode (S : Spec) (P : Prog) (c : Cert) (a : Ann) (n : Node) : Bool :=
    | .wr _ ok err => mu.contains S.writeSlot && sub my (mayAt a ok) && sub my (mayAt a err) && sub (mustAt a ok) mu && sub (mustAt a err) mu
    | .unlock m nx => sub my (mayAt a nx) && sub (mustAt a nx) (mu.filter (fun s => S.lockOf s != m))
    | .spawn e nx => (mustAt a e).isEmpty && sub my (mayAt a nx) && sub (mustAt a nx) mu
-   | .done ok => !ok || my.isEmpty
+   | .done ok => !ok || my.isEmpty || S.exempt.contains n
    | i => i.succs.all (fun s => sub my (mayAt a s) && sub (mustAt a s) mu))
 
 def check (S : Spec) (P : Prog) (c : Cert) (a : Ann) : Bool :=
@@ -46,12 +49,283 @@ def check (S : Spec) (P : Prog) (c : Cert) (a : Ann) : Bool :=
   P.entries.all (fun e => (mustAt a e).isEmpty) && P.boot.all (fun e => (mustAt a e).isEmpty) &&
   a.may.length ≤ P.code.length && a.must.length ≤ P.code.length
 
+/-! ### helper lemmas -/
+
+theorem sub_iff (x y : List Nat) : sub x y = true ↔ ∀ z ∈ x, z ∈ y := by
+  simp [sub, List.all_eq_true]
+
+/-- (MAY) a slot that contains thread `t`'s context is in the `may` set of `t`'s node. -/
+def MayInv (a : Ann) (g : G) : Prop :=
+  ∀ (s t : Nat), g.slot s = some t → ∃ n, g.pcs[t]? = some n ∧ s ∈ mayAt a n
+
+/-- (MUST) every slot in the `must` set of `t`'s node contains `t`'s context. -/
+def MustInv (a : Ann) (g : G) : Prop :=
+  ∀ (t n : Nat), g.pcs[t]? = some n → ∀ s ∈ mustAt a n, g.slot s = some t
+
+/-- `pcs'` is `pcs` with thread `t'` moved to `n''`, plus possibly new threads with empty `must`. -/
+def Moved (a : Ann) (pcs pcs' : List Node) (t' n'' : Nat) : Prop :=
+  pcs'[t']? = some n'' ∧
+  (∀ (t n : Nat), t ≠ t' → pcs[t]? = some n → pcs'[t]? = some n) ∧
+  (∀ (t n : Nat), pcs'[t]? = some n → t ≠ t' → pcs[t]? = some n ∨ mustAt a n = [])
+
+theorem lt_of_getElem? {l : List Nat} {t n : Nat} (h : l[t]? = some n) : t < l.length := by
+  rcases Nat.lt_or_ge t l.length with h' | h'
+  · exact h'
+  · rw [List.getElem?_eq_none h'] at h; cases h
+
+theorem moved_set (a : Ann) (pcs : List Node) (t' n'' : Nat) (h : t' < pcs.length) :
+    Moved a pcs (pcs.set t' n'') t' n'' := by
+  refine ⟨by simp [h], ?_, ?_⟩
+  · intro t n hne hn
+    rw [List.getElem?_set]; simp [Ne.symm hne, hn]
+  · intro t n hn hne
+    rw [List.getElem?_set] at hn; simp [Ne.symm hne] at hn
+    exact Or.inl hn
+
+theorem moved_spawn (a : Ann) (pcs : List Node) (t' n'' e : Nat) (h : t' < pcs.length)
+    (he : mustAt a e = []) : Moved a pcs (pcs.set t' n'' ++ [e]) t' n'' := by
+  have hM := moved_set a pcs t' n'' h
+  refine ⟨?_, ?_, ?_⟩
+  · rw [List.getElem?_append_left (by simpa using h)]; exact hM.1
+  · intro t n hne hn
+    have := hM.2.1 t n hne hn
+    rw [List.getElem?_append_left (lt_of_getElem? this)]; exact this
+  · intro t n hn hne
+    rw [List.getElem?_append] at hn
+    split at hn
+    · exact hM.2.2 t n hn hne
+    · right
+      have : n = e := by
+        cases hk : t - (pcs.set t' n'').length with
+        | zero => rw [hk] at hn; simp at hn; exact hn.symm
+        | succ k => rw [hk] at hn; simp at hn
+      rw [this]; exact he
+
+theorem may_plain {a : Ann} {g g' : G} {t' n' n'' : Nat} (hI : MayInv a g)
+    (hpc : g.pcs[t']? = some n') (hsub : ∀ x ∈ mayAt a n', x ∈ mayAt a n'')
+    (hslot : g'.slot = g.slot) (hM : Moved a g.pcs g'.pcs t' n'') : MayInv a g' := by
+  intro s t hs
+  rw [hslot] at hs
+  obtain ⟨n, hn, hm⟩ := hI s t hs
+  by_cases ht : t = t'
+  · subst ht
+    rw [hpc] at hn; cases hn
+    exact ⟨n'', hM.1, hsub _ hm⟩
+  · exact ⟨n, hM.2.1 _ _ ht hn, hm⟩
+
+theorem must_plain {a : Ann} {g g' : G} {t' n' n'' : Nat} (hI : MustInv a g)
+    (hpc : g.pcs[t']? = some n') (hsub : ∀ x ∈ mustAt a n'', x ∈ mustAt a n')
+    (hslot : g'.slot = g.slot) (hM : Moved a g.pcs g'.pcs t' n'') : MustInv a g' := by
+  intro t n hn s hs
+  rw [hslot]
+  by_cases ht : t = t'
+  · subst ht
+    rw [hM.1] at hn; cases hn
+    exact hI t n' hpc s (hsub _ hs)
+  · rcases hM.2.2 t n hn ht with h | h
+    · exact hI t n h s hs
+    · rw [h] at hs; cases hs
+
+theorem may_arm {a : Ann} {g g' : G} {t' n' ok s0 : Nat} {own : Bool} (hI : MayInv a g)
+    (hpc : g.pcs[t']? = some n')
+    (hslot : g'.slot = upd g.slot s0 (if own then some t' else none))
+    (hM : Moved a g.pcs g'.pcs t' ok)
+    (hsub : ∀ x ∈ mayAt a n', x ≠ s0 → x ∈ mayAt a ok)
+    (hown : own = true → s0 ∈ mayAt a ok) : MayInv a g' := by
+  intro s t hs
+  rw [hslot] at hs
+  by_cases hss : s = s0
+  · subst hss
+    cases own with
+    | false => simp [upd] at hs
+    | true =>
+      simp [upd] at hs
+      subst hs
+      exact ⟨ok, hM.1, hown rfl⟩
+  · simp [upd, hss] at hs
+    obtain ⟨n, hn, hm⟩ := hI s t hs
+    by_cases ht : t = t'
+    · subst ht
+      rw [hpc] at hn; cases hn
+      exact ⟨ok, hM.1, hsub _ hm hss⟩
+    · exact ⟨n, hM.2.1 _ _ ht hn, hm⟩
+
+theorem must_arm {a : Ann} {g g' : G} {t' n' ok s0 : Nat} {own : Bool} (hI : MustInv a g)
+    (hpc : g.pcs[t']? = some n')
+    (hslot : g'.slot = upd g.slot s0 (if own then some t' else none))
+    (hM : Moved a g.pcs g'.pcs t' ok)
+    (hsub : ∀ x ∈ mustAt a ok, x ≠ s0 → x ∈ mustAt a n')
+    (hown : own = false → s0 ∉ mustAt a ok)
+    (hex : ∀ (t n : Nat), t ≠ t' → g.pcs[t]? = some n → s0 ∉ mustAt a n) : MustInv a g' := by
+  intro t n hn s hs
+  rw [hslot]
+  by_cases ht : t = t'
+  · subst ht
+    rw [hM.1] at hn; cases hn
+    by_cases hss : s = s0
+    · subst hss
+      cases own with
+      | false => exact absurd hs (hown rfl)
+      | true => simp [upd]
+    · simp [upd, hss]
+      exact hI t n' hpc s (hsub _ hs hss)
+  · rcases hM.2.2 t n hn ht with h | h
+    · have hss : s ≠ s0 := by
+        intro hss; subst hss; exact hex t n ht h hs
+      simp [upd, hss]
+      exact hI t n h s hs
+    · rw [h] at hs; cases hs
+
+structure Checked (S : Spec) (P : Prog) (c : Cert) (a : Ann) : Prop where
+  ls : Lockset.check P c = true
+  node : ∀ n, n < P.code.length → checkNode S P c a n = true
+  entries : ∀ e ∈ P.entries, mustAt a e = []
+  boot : ∀ e ∈ P.boot, mustAt a e = []
+  mayLen : a.may.length ≤ P.code.length
+  mustLen : a.must.length ≤ P.code.length
+
+theorem checked_of_check {S : Spec} {P : Prog} {c : Cert} {a : Ann} (h : check S P c a = true) :
+    Checked S P c a := by
+  simp only [check, Bool.and_eq_true, List.all_eq_true, List.mem_range, decide_eq_true_eq,
+    List.isEmpty_iff] at h
+  obtain ⟨⟨⟨⟨⟨h1, h2⟩, h3⟩, h4⟩, h5⟩, h6⟩ := h
+  exact ⟨h1, h2, h3, h4, h5, h6⟩
+
+theorem at_of_ge (P : Prog) (n : Nat) (h : P.code.length ≤ n) : P.at n = .done false := by
+  simp [Prog.at, List.getD, List.getElem?_eq_none h]
+
+theorem mustAt_of_ge (a : Ann) (n : Nat) (h : a.must.length ≤ n) : mustAt a n = [] := by
+  simp [mustAt, List.getD, List.getElem?_eq_none h]
+
+theorem mayAt_of_ge (a : Ann) (n : Nat) (h : a.may.length ≤ n) : mayAt a n = [] := by
+  simp [mayAt, List.getD, List.getElem?_eq_none h]
+
+theorem must_holds_lock {S : Spec} {P : Prog} {c : Cert} {a : Ann} (hC : Checked S P c a)
+    (n s : Nat) (hs : s ∈ mustAt a n) : S.lockOf s ∈ held c n := by
+  have hlt : n < P.code.length := by
+    rcases Nat.lt_or_ge n P.code.length with h | h
+    · exact h
+    · rw [mustAt_of_ge a n (Nat.le_trans hC.mustLen h)] at hs; cases hs
+  have := hC.node n hlt
+  simp only [checkNode, Bool.and_eq_true, List.all_eq_true, List.contains_iff_mem] at this
+  exact (this.1 s hs).1
+
+set_option hygiene false in
+local macro "plain " m:term "," u:term : tactic =>
+  `(tactic| exact ⟨may_plain hMay hpc $m rfl (moved_set a g.pcs t' _ ht'),
+      must_plain hMust hpc $u rfl (moved_set a g.pcs t' _ ht')⟩)
+
+theorem step_inv {S : Spec} {P : Prog} {c : Cert} {a : Ann} (hC : Checked S P c a)
+    (g g' : G) (hr : Reach P g) (hst : Step P g g') (hMay : MayInv a g) (hMust : MustInv a g) :
+    MayInv a g' ∧ MustInv a g' := by
+  cases hst with
+  | start e _ he =>
+    constructor
+    · intro s t hs
+      obtain ⟨n, hn, hm⟩ := hMay s t hs
+      refine ⟨n, ?_, hm⟩
+      show (g.pcs ++ [e])[t]? = some n
+      rw [List.getElem?_append_left (lt_of_getElem? hn)]; exact hn
+    · intro t n hn s hs
+      show g.slot s = some t
+      have hn : (g.pcs ++ [e])[t]? = some n := hn
+      rw [List.getElem?_append] at hn
+      split at hn
+      · exact hMust t n hn s hs
+      · have : n = e := by
+          cases hk : t - g.pcs.length with
+          | zero => rw [hk] at hn; simp at hn; exact hn.symm
+          | succ k => rw [hk] at hn; simp at hn
+        rw [this, hC.entries e he] at hs; cases hs
+  | thread t' n' _ _ hpc hts =>
+    have hlt : n' < P.code.length := by
+      rcases Nat.lt_or_ge n' P.code.length with h | h
+      · exact h
+      · rw [at_of_ge P n' h] at hts; cases hts
+    have hc := hC.node n' hlt
+    have ht' : t' < g.pcs.length := lt_of_getElem? hpc
+    have hex : ∀ s0, S.lockOf s0 ∈ held c n' →
+        ∀ (t n : Nat), t ≠ t' → g.pcs[t]? = some n → s0 ∉ mustAt a n := by
+      intro s0 hl t n hne hn hs
+      exact hne (Lockset.exclusive P c hC.ls g hr t t' n n' (S.lockOf s0) hn hpc
+        (must_holds_lock hC n s0 hs) hl)
+    generalize hi : P.at n' = i at hts
+    cases hts <;>
+      simp only [checkNode, hi, Bool.and_eq_true, List.all_eq_true, List.contains_iff_mem,
+        sub_iff, Instr.succs, List.mem_cons, List.not_mem_nil, or_false, forall_eq_or_imp,
+        forall_eq, List.isEmpty_iff] at hc
+    case lockOk => plain hc.2.1.1, hc.2.1.2
+    case tryYes => plain hc.2.1.1, hc.2.1.2
+    case lockErr => plain hc.2.2.1, hc.2.2.2
+    case tryNo => plain hc.2.2.1, hc.2.2.2
+    case forceLock => plain hc.2.1, hc.2.2
+    case set => plain hc.2.1, hc.2.2
+    case signal => plain hc.2.1, hc.2.2
+    case testT => plain hc.2.1.1, hc.2.1.2
+    case casWon => plain hc.2.1.1, hc.2.1.2
+    case awaitOk => plain hc.2.1.1, hc.2.1.2
+    case testF => plain hc.2.2.1, hc.2.2.2
+    case casLost => plain hc.2.2.1, hc.2.2.2
+    case awaitTimeout => plain hc.2.2.1, hc.2.2.2
+    case unlock => plain hc.2.1, (fun z hz => (List.mem_filter.1 (hc.2.2 z hz)).1)
+    case wrOk => plain hc.2.1.1.1.2, hc.2.1.2
+    case ioOk => plain hc.2.1.1.1.2, hc.2.1.2
+    case wrErr => plain hc.2.1.1.2, hc.2.2
+    case ioErr => plain hc.2.1.1.2, hc.2.2
+    case armClosed => plain hc.2.1.2, hc.2.2
+    case branch hmem => plain (hc.2 _ hmem).1, (hc.2 _ hmem).2
+    case spawn =>
+      exact ⟨may_plain hMay hpc hc.2.1.2 rfl (moved_spawn a g.pcs t' _ _ ht' hc.2.1.1),
+        must_plain hMust hpc hc.2.2 rfl (moved_spawn a g.pcs t' _ _ ht' hc.2.1.1)⟩
+    case armOk s0 own ok cl =>
+      obtain ⟨_, ⟨⟨hl, hif⟩, _⟩, _⟩ := hc
+      have hM := moved_set a g.pcs t' ok ht'
+      cases own with
+      | true =>
+        simp [sub_iff] at hif
+        obtain ⟨⟨h1, h2⟩, h3⟩ := hif
+        exact ⟨may_arm hMay hpc rfl hM (fun x hx _ => h1 x hx) (fun _ => h2),
+          must_arm hMust hpc rfl hM (fun x hx hne => (h3 x hx).resolve_left hne)
+            (fun h => by cases h) (hex s0 hl)⟩
+      | false =>
+        simp [sub_iff] at hif
+        obtain ⟨⟨h1, h2⟩, h3⟩ := hif
+        exact ⟨may_arm hMay hpc rfl hM
+            (fun x hx hne => h1 x ((List.mem_erase_of_ne hne).2 hx)) (fun h => by cases h),
+          must_arm hMust hpc rfl hM (fun x hx _ => List.mem_of_mem_erase (h2 x hx))
+            (fun _ => h3) (hex s0 hl)⟩
+
+theorem invs {S : Spec} {P : Prog} {c : Cert} {a : Ann} (hC : Checked S P c a)
+    (g : G) (hr : Reach P g) : MayInv a g ∧ MustInv a g := by
+  induction hr with
+  | init =>
+    constructor
+    · intro s t hs; simp [G.boot, G.init] at hs
+    · intro t n hn s hs
+      have hn : P.boot[t]? = some n := hn
+      rw [hC.boot n (List.mem_of_getElem? hn)] at hs; cases hs
+  | step g g' hr hst ih => exact step_inv hC g g' hr hst ih.1 ih.2
+
 /-- **a finished call's context is in no slot** (so cancelling it later cannot close the connection),
 for every program that checks, every number of threads and every interleaving. -/
 theorem finished_not_armed (S : Spec) (P : Prog) (c : Cert) (a : Ann) (h : check S P c a = true)
-    (g : G) (hr : Reach P g) (t n : Nat) (hn : g.pcs[t]? = some n) (hd : P.at n = .done true) :
+    (g : G) (hr : Reach P g) (t n : Nat) (hn : g.pcs[t]? = some n) (hd : P.at n = .done true)
+    (hex : S.exempt.contains n = false) :
     ∀ s, g.slot s ≠ some t := by
-  sorry
+  have hC := checked_of_check h
+  intro s hs
+  obtain ⟨n1, hn1, hm⟩ := (invs hC g hr).1 s t hs
+  rw [hn] at hn1; cases hn1
+  have hlt : n < P.code.length := by
+    rcases Nat.lt_or_ge n P.code.length with h' | h'
+    · exact h'
+    · rw [at_of_ge P n h'] at hd; cases hd
+  have hc := hC.node n hlt
+  simp [checkNode, hd] at hc
+  have hc2 := hc.2
+  rcases hc2 with hc2 | hc2
+  · rw [hc2] at hm; cases hm
+  · simp at hex; exact absurd hc2 hex
 
 /-- **a call blocked in transport I/O has its own context armed** in the slot the timeout goroutine
 watches for that direction. -/
@@ -59,6 +333,24 @@ theorem blocked_has_own_ctx (S : Spec) (P : Prog) (c : Cert) (a : Ann) (h : chec
     (g : G) (hr : Reach P g) (t n : Nat) (hn : g.pcs[t]? = some n) :
     (∀ ok err, P.at n = .io ok err → g.slot S.readSlot = some t) ∧
     (∀ k ok err, P.at n = .wr k ok err → g.slot S.writeSlot = some t) := by
-  sorry
+  have hC := checked_of_check h
+  have hMust := (invs hC g hr).2
+  constructor
+  · intro ok err hi
+    have hlt : n < P.code.length := by
+      rcases Nat.lt_or_ge n P.code.length with h' | h'
+      · exact h'
+      · rw [at_of_ge P n h'] at hi; cases hi
+    have hc := hC.node n hlt
+    simp [checkNode, hi] at hc
+    exact hMust t n hn _ hc.2.1.1.1.1
+  · intro k ok err hi
+    have hlt : n < P.code.length := by
+      rcases Nat.lt_or_ge n P.code.length with h' | h'
+      · exact h'
+      · rw [at_of_ge P n h'] at hi; cases hi
+    have hc := hC.node n hlt
+    simp [checkNode, hi] at hc
+    exact hMust t n hn _ hc.2.1.1.1.1
 
 end WS.CIR.Arming
